@@ -376,6 +376,21 @@ func F2(thorough bool) []*Program {
 	mk := func(name string, async uint) Decl {
 		return coreDecl(name, [][]int{{1, 2}, {2}, {}}, async, 0b010, -1, 0)
 	}
+	// a consumer taking both results of one provider next to a deeper, all-sync dependency
+	// chain, with unrelated Async roots that force goroutines (variables are predeclared)
+	for m := 0; m < 8; m++ {
+		a := func(bit int, p Prov) Prov { p.Async = m&(1<<bit) != 0; return p }
+		as := func(p Prov) Prov { p.Async = true; return p }
+		out = append(out, &Program{Family: "F2", Desc: fmt.Sprintf("multi-result plus sync chain plus async roots variant=%03b", m), Types: typeNames(7), Decls: []Decl{{
+			Name: "InitP", Request: "*T0", Provs: []Prov{
+				a(0, fn("NewT1T2", nil, []string{"*T1", "*T2"}, false)),
+				a(1, fn("NewT3", nil, []string{"*T3"}, false)),
+				a(2, fn("NewT4", []string{"*T3"}, []string{"*T4"}, false)),
+				as(fn("NewT5", nil, []string{"*T5"}, false)),
+				as(fn("NewT6", nil, []string{"*T6"}, false)),
+				fn("NewT0", []string{"*T1", "*T2", "*T4", "*T5", "*T6"}, []string{"*T0"}, false),
+			}}}})
+	}
 	out = append(out,
 		&Program{Family: "F2", Desc: "two injectors, one file", Types: typeNames(3), Decls: []Decl{mk("InitP", 0b110), mk("InitQ", 0b011)}},
 		&Program{Family: "F2", Desc: "two files", Types: typeNames(3), Decls: []Decl{mk("InitP", 0b100), mk("InitQ", 0b110)}, Files: [][]int{{0}, {1}}},
